@@ -16,6 +16,7 @@ import (
 	leveragelptypes "github.com/elys-network/elys/x/leveragelp/types"
 	mastercheftypes "github.com/elys-network/elys/x/masterchef/types"
 	perpetualtypes "github.com/elys-network/elys/x/perpetual/types"
+	tradeshieldtypes "github.com/elys-network/elys/x/tradeshield/types"
 )
 
 // msgInfo describes one registered elys message type.
@@ -301,6 +302,10 @@ func (a *AttackerAgent) ownerScoped(s *Sim, attacker *Account) {
 	r := a.rng
 	ctx := s.Ctx()
 	me := attacker.Addr.String()
+	if r.IntN(2) == 0 {
+		a.ownerScopedOrders(s, attacker)
+		return
+	}
 	switch r.IntN(6) {
 	case 0:
 		for _, p := range s.N0.App.LeveragelpKeeper.GetAllPositions(ctx) {
@@ -348,5 +353,85 @@ func (a *AttackerAgent) ownerScoped(s *Sim, attacker *Account) {
 		// claiming through somebody else's leveraged position id via the masterchef route is not possible
 		// (claims are keyed by the signer); nothing to attack here
 		_ = mastercheftypes.ModuleName
+	}
+}
+
+// ownerScopedOrders: every tradeshield message that names an order by id, pointed at a
+// live pending order of another owner: single and batch variants, and batches mixing the
+// attacker's own live orders with a foreign one (the whole message must be refused).
+func (a *AttackerAgent) ownerScopedOrders(s *Sim, attacker *Account) {
+	r := a.rng
+	ctx := s.Ctx()
+	me := attacker.Addr.String()
+	var foreignSpot, ownSpot []tradeshieldtypes.SpotOrder
+	for _, o := range s.N0.App.TradeshieldKeeper.GetAllPendingSpotOrder(ctx) {
+		if o.OwnerAddress != me {
+			foreignSpot = append(foreignSpot, o)
+		} else {
+			ownSpot = append(ownSpot, o)
+		}
+	}
+	var foreignPerp, ownPerp []tradeshieldtypes.PerpetualOrder
+	for _, o := range s.N0.App.TradeshieldKeeper.GetAllPendingPerpetualOrder(ctx) {
+		if o.OwnerAddress != me {
+			foreignPerp = append(foreignPerp, o)
+		} else {
+			ownPerp = append(ownPerp, o)
+		}
+	}
+	switch r.IntN(8) {
+	case 0:
+		if len(foreignSpot) > 0 {
+			o := foreignSpot[r.IntN(len(foreignSpot))]
+			s.SendTx(attacker, "attack/owner/spot_cancel", &tradeshieldtypes.MsgCancelSpotOrder{OwnerAddress: me, OrderId: o.OrderId})
+		}
+	case 1:
+		if len(foreignSpot) > 0 {
+			o := foreignSpot[r.IntN(len(foreignSpot))]
+			s.SendTx(attacker, "attack/owner/spot_cancel_batch", &tradeshieldtypes.MsgCancelSpotOrders{Creator: me, SpotOrderIds: []uint64{o.OrderId}})
+		}
+	case 2:
+		// own live orders first, the foreign one last
+		if len(foreignSpot) > 0 {
+			var ids []uint64
+			for _, o := range ownSpot {
+				ids = append(ids, o.OrderId)
+			}
+			ids = append(ids, foreignSpot[r.IntN(len(foreignSpot))].OrderId)
+			s.SendTx(attacker, "attack/owner/spot_cancel_batch_mixed", &tradeshieldtypes.MsgCancelSpotOrders{Creator: me, SpotOrderIds: ids})
+		}
+	case 3:
+		if len(foreignSpot) > 0 {
+			o := foreignSpot[r.IntN(len(foreignSpot))]
+			np := o.OrderPrice
+			np.Rate = np.Rate.Mul(decFromFloat(0.5 + r.Float64()))
+			s.SendTx(attacker, "attack/owner/spot_update", &tradeshieldtypes.MsgUpdateSpotOrder{OwnerAddress: me, OrderId: o.OrderId, OrderPrice: np})
+		}
+	case 4:
+		if len(foreignPerp) > 0 {
+			o := foreignPerp[r.IntN(len(foreignPerp))]
+			s.SendTx(attacker, "attack/owner/perp_order_cancel", &tradeshieldtypes.MsgCancelPerpetualOrder{OwnerAddress: me, OrderId: o.OrderId})
+		}
+	case 5:
+		if len(foreignPerp) > 0 {
+			o := foreignPerp[r.IntN(len(foreignPerp))]
+			s.SendTx(attacker, "attack/owner/perp_order_cancel_batch", &tradeshieldtypes.MsgCancelPerpetualOrders{OwnerAddress: me, OrderIds: []uint64{o.OrderId}})
+		}
+	case 6:
+		if len(foreignPerp) > 0 {
+			var ids []uint64
+			for _, o := range ownPerp {
+				ids = append(ids, o.OrderId)
+			}
+			ids = append(ids, foreignPerp[r.IntN(len(foreignPerp))].OrderId)
+			s.SendTx(attacker, "attack/owner/perp_order_cancel_batch_mixed", &tradeshieldtypes.MsgCancelPerpetualOrders{OwnerAddress: me, OrderIds: ids})
+		}
+	case 7:
+		if len(foreignPerp) > 0 {
+			o := foreignPerp[r.IntN(len(foreignPerp))]
+			np := o.TriggerPrice
+			np.Rate = np.Rate.Mul(decFromFloat(0.5 + r.Float64()))
+			s.SendTx(attacker, "attack/owner/perp_order_update", &tradeshieldtypes.MsgUpdatePerpetualOrder{OwnerAddress: me, OrderId: o.OrderId, TriggerPrice: np})
+		}
 	}
 }
